@@ -14,6 +14,19 @@ pub fn run(ctx: &Ctx, rec: &mut Rec) {
     let mut zrng = rng_for(ctx.seed, P, 999, 0);
     let mut inputs: Vec<(B, &'static str)> = field_zoo(f);
     inputs.extend(field_random(f, &mut zrng, ctx.scale(60_000, 2_000_000)));
+    // engineered first intermediate: r0 with r = zeta * r0^2 equal to a member of the field zoo (the map works on
+    // r, not on r0: limb patterns, internal-form extremes and quotient boundaries have to be placed there)
+    {
+        let zi = f.inv(&c.zeta).unwrap();
+        let mut eng: Vec<(B, &'static str)> = Vec::new();
+        for (v, _) in field_zoo(f) {
+            if let Some(r0) = f.sqrt(&f.mul(&v, &zi)) {
+                eng.push((r0, "engineered-r"));
+            }
+        }
+        rec.declare_class("engineered-r");
+        inputs.extend(eng);
+    }
     for cl in ["zero", "one", "p-1", "root-of-unity-2^k", "small-int", "random", "branch:square", "branch:nonsquare", "engineered-sqrt-exponent"] {
         rec.declare_class(cl);
     }
